@@ -324,6 +324,12 @@ func (h *history) step() {
 				panic("ExtendedCoordinates differ from the model")
 			}
 			if h.scribble {
+				// field-level Bytes results are returned values too
+				eb1, eb2 := X.Bytes(), X.Bytes()
+				if &eb1[0] == &eb2[0] {
+					panic("two Element.Bytes results share memory")
+				}
+				h.retBytes = append(h.retBytes, eb1)
 				h.retElems = append(h.retElems, X, Y, Z, T)
 				// the returned Elements must not point into the Point
 				base := uintptr(unsafe.Pointer(h.pts[a]))
